@@ -34,6 +34,11 @@ structure Facts where
   -- C06: allocations carry the size / alignment / GC type of one type node; pointerful kinds are typed
   typedAllocOK : Bool
   typedAllocSites : Nat
+  -- fingerprints (sha256 prefix) of the control-structure skeletons of the functions the hand-written
+  -- model describes: guards, switches, loops, returns and call sequence (listed in Generated.lean)
+  decoderSkeleton : String
+  encoderSkeleton : String
+  resolverSkeleton : String
   -- C08 / C07
   createLocksRechecksBuildsPublishes : Bool
   getIsReadOnly : Bool
